@@ -37,3 +37,15 @@ def sqrt_stub_int(ctx, args):
                           z3.And(r >= 0, r < (1 << 32), z3.Or(r == 0, (r - 1) * (r - 1) < V), V < (r + 1) * (r + 1))))
     ctx.assume(z3.Implies(y < 0, r == NAN))
     return E.IV(r, 64)
+
+
+def sqrt_stub_int_floor(ctx, args):
+    """the abacus algorithm's exact behaviour (C13: r = floor(sqrt(y * 2^16))), used when a counterexample has to reproduce
+    on the build with FIXEDMATH_ENABLE_SQRT_ABACUS_ALGO"""
+    from .. import encode as E
+    y = args[0].t
+    r = SQRTI(y)
+    V = y * 65536
+    ctx.assume(z3.Implies(z3.And(y >= 0, y < (1 << 48)), z3.And(r >= 0, r < (1 << 32), r * r <= V, V < (r + 1) * (r + 1))))
+    ctx.assume(z3.Implies(y < 0, r == NAN))
+    return E.IV(r, 64)
